@@ -124,6 +124,11 @@ def _binary_op_wrapper(op_name):
         # If other is a BA, we can assume the operation is implemented
         # (because BAs must contain jax arrays)
         if isinstance(other, BlockArray):
+            if len(self) != len(other):
+                raise TypeError(
+                    f"Block arrays with different numbers of blocks ({len(self)} and "
+                    f"{len(other)}) cannot be combined."
+                )
             return BlockArray(op(x, y) for x, y in zip(self, other))
 
         # If not, need to handle possible NotImplemented
